@@ -59,7 +59,10 @@ class World:
     def serve(self, url, resp, finish=0):
         if isinstance(resp, str):
             resp = resp.encode("utf-8")
-        self.entries.append((self.u(url), resp, finish))
+        ui = self.u(url)
+        # one answer per URL: serving a URL again replaces the earlier answer (a world must be a function)
+        self.entries = [e for e in self.entries if e[0] != ui]
+        self.entries.append((ui, resp, finish))
 
     def fetch(self, url):
         self.ops.append(("fetch", self.u(url)))
